@@ -1,7 +1,11 @@
 package httpserver
 
 import (
+	"errors"
 	"github.com/megaease/easegress/pkg/util/ipfilter"
+	"github.com/megaease/easegress/pkg/util/limitlistener"
+	"github.com/megaease/easegress/pkg/util/sem"
+	"net"
 	"net/http"
 	"net/url"
 	"sync"
@@ -117,6 +121,8 @@ func verifC11_RuntimeReload() {
 	vStartedWith, vStarts, vCloses = nil, 0, 0
 	r.reload(vSuper(oldSpec), mapper)
 	verifAssert(vStarts == 1 && vStartedWith == oldSpec && vCloses == 0, "first-load-starts-the-server-with-its-spec")
+	// the listener the (replaced) startServer would have made: the REAL limit listener
+	r.limitListener = limitlistener.NewLimitListener(&vNoListener{}, oldSpec.MaxConnections)
 
 	newSpec := &Spec{Port: 8080, KeepAlive: true, MaxConnections: 10, XForwardedFor: true, CacheSize: 7,
 		Rules: []*Rule{{Paths: []*Path{{PathPrefix: "/", Backend: "new"}}}}}
@@ -158,6 +164,15 @@ func verifC11_RuntimeReload() {
 	verifAssert(mapper.nw.xff == "9.9.9.9", "options-are-the-new-generations")
 	verifAssert(r.spec.XForwardedFor && r.spec.CacheSize == 7 && len(r.spec.Rules) == 1 && r.spec.MaxConnections == wantMax,
 		"applied-spec-is-kept-as-it-was-applied")
+	// a changed maxConnections reaches the running listener when the server is not restarted
+	if !restart {
+		verifQuiesce()
+		sm := verifGetField(r.limitListener, "sem").(*sem.Semaphore)
+		verifAssert(verifGetField(sm, "realCapacity").(int64) == int64(wantMax), "running-listener-gets-the-new-maxConnections")
+		if wantMax == 20 {
+			verifCover("maxConnections-changed-at-run-time")
+		}
+	}
 }
 
 // ---- the tracer of a generation ------------------------------------------------------------
@@ -282,3 +297,11 @@ func verifC11_PipelineUpdateBehindTheServer() {
 		verifCover("route-was-cached")
 	}
 }
+
+type vNoListener struct{}
+
+func (vNoListener) Accept() (net.Conn, error) { return nil, errNoConn }
+func (vNoListener) Close() error              { return nil }
+func (vNoListener) Addr() net.Addr            { return nil }
+
+var errNoConn = errors.New("no connection")
